@@ -8,35 +8,70 @@ import (
 	"sync"
 
 	"github.com/bfenetworks/bfe/bfe_basic"
+	"github.com/bfenetworks/bfe/bfe_basic/condition"
 	"github.com/bfenetworks/bfe/bfe_http"
+	"github.com/bfenetworks/bfe/bfe_module"
 )
 
 var (
 	verifOnce sync.Once
 	verifMod  *ModuleStatic
+	verifTrue, verifFalse condition.Condition
 )
 
-// VerifServe runs createRespFromStaticFile (C50) for one request against a BROWSE rule (root, defaultFile)
-// and returns status, body, Content-Length header, Content-Encoding header.
-func VerifServe(method, urlPath, acceptEncoding string, hasAE bool, root, defaultFile string,
-	enableCompress bool) (int, []byte, string, string) {
+// VerifServe runs staticFileHandler (C50) for one request of product "p".
+// route 0: the product's rules are [a rule whose condition is false; BROWSE(root, defaultFile) with a true condition];
+// route 1: only another product has rules; route 2: the product's only rule has a false condition.
+// Returns status (-1 = BfeHandlerGoOn), body, Content-Length, Content-Encoding and the changes of the counters
+// FileBrowseNotExist / FileBrowseFallbackDefault plus the FileCurrentOpened gauge after the body was read and closed.
+func VerifServe(route int, method, urlPath, acceptEncoding string, hasAE bool, root, defaultFile string,
+	enableCompress bool) (int, []byte, string, string, [3]int64) {
 	verifOnce.Do(func() {
 		verifMod = NewModuleStatic()
 		verifMod.conf = &ConfModStatic{}
+		var err error
+		if verifTrue, err = condition.Build("default_t()"); err != nil {
+			panic(err)
+		}
+		if verifFalse, err = condition.Build("!default_t()"); err != nil {
+			panic(err)
+		}
 	})
 	m := verifMod
 	m.conf.Basic.EnableCompress = enableCompress
+	browse := StaticRule{Cond: verifTrue, Action: Action{Cmd: ActionBrowse, Params: []string{root, defaultFile}}}
+	decoy := StaticRule{Cond: verifFalse, Action: Action{Cmd: ActionBrowse, Params: []string{"/", ""}}}
+	conf := StaticConf{Version: "v", Config: ProductRules{}}
+	switch route {
+	case 0:
+		conf.Config["p"] = &RuleList{decoy, browse}
+	case 1:
+		conf.Config["other"] = &RuleList{browse}
+	default:
+		conf.Config["p"] = &RuleList{decoy}
+	}
+	m.ruleTable.Update(conf)
 	hreq := &bfe_http.Request{Method: method, URL: &url.URL{Path: urlPath}, Header: make(bfe_http.Header)}
 	if hasAE {
 		hreq.Header.Set("Accept-Encoding", acceptEncoding)
 	}
 	req := &bfe_basic.Request{HttpRequest: hreq}
-	rule := &StaticRule{Action: Action{Cmd: ActionBrowse, Params: []string{root, defaultFile}}}
-	resp := m.createRespFromStaticFile(req, rule)
+	req.Route.Product = "p"
+	ne0, fb0 := m.state.FileBrowseNotExist.Get(), m.state.FileBrowseFallbackDefault.Get()
+	ret, resp := m.staticFileHandler(req)
+	if ret == bfe_module.BfeHandlerGoOn && resp == nil {
+		return -1, nil, "", "", [3]int64{m.state.FileBrowseNotExist.Get() - ne0,
+			m.state.FileBrowseFallbackDefault.Get() - fb0, m.state.FileCurrentOpened.Get()}
+	}
+	if ret != bfe_module.BfeHandlerResponse || resp == nil {
+		return -2, nil, "", "", [3]int64{}
+	}
 	var body []byte
 	if resp.Body != nil {
 		body, _ = ioutil.ReadAll(resp.Body)
 		resp.Body.Close()
 	}
-	return resp.StatusCode, body, resp.Header.Get("Content-Length"), resp.Header.Get("Content-Encoding")
+	return resp.StatusCode, body, resp.Header.Get("Content-Length"), resp.Header.Get("Content-Encoding"),
+		[3]int64{m.state.FileBrowseNotExist.Get() - ne0, m.state.FileBrowseFallbackDefault.Get() - fb0,
+			m.state.FileCurrentOpened.Get()}
 }
